@@ -6,6 +6,7 @@ import OPModel.Drive.C08
 import OPModel.Drive.C05
 import OPModel.Drive.C07
 import OPModel.Drive.C20
+import OPModel.Drive.C03
 
 open OP
 
@@ -18,6 +19,7 @@ def handle (line : String) : String :=
   | "insert" :: args => Drive.insert args
   | "pockets" :: args => Drive.pockets args
   | "entu" :: args => Drive.entu args
+  | "assign" :: args => Drive.assign args
   | "pinch" :: args => Drive.pinch args
   | "pincht" :: args => Drive.pincht args
   | _ => "bad-op"
